@@ -112,12 +112,14 @@ FormAsDocumented(i, o) == IsAnnotation(i) => ~HasNode(o, "generic")
 
 (****************************** universe ***********************************)
 Leaves == IF LeafSet = "small"
-          THEN {N("int"), N("dict"), N("Foo"), NoneE, C("a|b"), C("two  blanks")}
+          THEN {N("int"), N("dict"), N("Foo"), A(N("m"), "list"), NoneE, C("a|b"), C("two  blanks")}
           ELSE {N("int"), N("str"), N("dict"), N("list"), N("tuple"), N("set"), N("Pattern"), N("Foo"),
-                A(N("m"), "Foo"), A(N("typing"), "Dict"), NoneE, Ell, C("a|b"), C("x[y]"), C("two  blanks")}
+                A(N("m"), "Foo"), A(N("m"), "list"), A(N("typing"), "Dict"), NoneE, Ell, C("a|b"), C("x[y]"), C("two  blanks")}
 Heads == IF LeafSet = "small" THEN {N("list"), N("Foo"), A(N("typing"), "Optional")}
          ELSE {N("list"), N("dict"), N("tuple"), N("Foo"), N("Literal"), A(N("typing"), "Optional"),
-               A(N("typing"), "Union"), A(N("typing"), "Callable"), N("Annotated")}
+               A(N("typing"), "Union"), A(N("typing"), "Callable"), N("Annotated"),
+               \* a user's own generic that is spelled like a builtin one, qualified by its module
+               A(N("m"), "dict")}
 
 RECURSIVE TermsUpTo(_)
 TermsUpTo(d) ==
